@@ -90,8 +90,8 @@ def make_contests(cset, limits):
     cons = Contest.from_dict_of_dicts(d)
     Assertion.make_all_assertions(cons)
     for k, con in cons.items():
-        for a in con.assertions.values():
-            a.margin = 0.6
+        for j, a in enumerate(con.assertions.values()):
+            a.margin = 0.6 - 0.15 * j  # every assertion has its own margin, hence its own bound u
             if k == "k4":
                 a.assorter.tally_pool_means = {"P": 0.8}
     return cons
